@@ -324,7 +324,8 @@ class CentrallyBin(Factory, Container):
 
     @inheritdoc(Container)
     def zero(self):
-        return CentrallyBin([c for c, v in self.bins], self.quantity, self.value, self.nanflow.zero())
+        # self.value is None for a container reloaded from JSON or made by ed(): use a bin as the template
+        return CentrallyBin([c for c, v in self.bins], self.quantity, self.bins[0][1].zero(), self.nanflow.zero())
 
     @inheritdoc(Container)
     def __add__(self, other):
